@@ -164,6 +164,8 @@ def run_case(scn, ctx):
             elif form == "rel":
                 cwd = os.path.dirname(w.abs(target))
                 a0 = os.path.basename(w.abs(target))
+                if a0.startswith("-"):
+                    a0 = "./" + a0  # (what a user has to type for a folder whose name looks like an option)
                 feats.add("relative_invocation")
             else:
                 cwd = w.abs(target)
